@@ -14,7 +14,7 @@ def run(tier, seed):
     while len(progs) < n:
         p = g.program({"nonlinear": True, "nstrat": g.rng.choice([1, 2, 2, 3]), "requests": False, "p_mix": 0.7,
                        "state_rates": False, "kind_pool": ["transition", "death"], "cross_strain": 0.6,
-                       "bare_adjs": 0.4})
+                       "bare_adjs": 0.4, "partial_strain": 0.4})
         if any(o["op"] == "flow" and o["kind"].startswith("infection") for o in p["ops"]):
             progs.append(p)
     # several mixing stratifications in sequence, constant and parameterised / time-varying matrices in
